@@ -221,3 +221,56 @@ func LLDP(r *prng.R) *rec.Rec {
 		SetS("port", rec.New("lldp_port").Set("subtype", uint64(r.Range(1, 7))).SetB("id", r.Bytes(r.Range(1, 20)))).
 		SetS("ttl", rec.New("lldp_ttl").Set("seconds", r.Bits(16)))
 }
+
+// PacketKinds are the packet-header kinds with a decoder of their own.
+var PacketKinds = []string{"ethernet", "vlan", "arp", "ipv4", "ipv6", "hbh", "routing", "fragment", "ip6opt", "icmp", "udp", "tcp",
+	"igmp12", "igmp3_query", "igmp3_record", "igmp3_report", "dhcp", "lldp", "lldp_chassis", "lldp_port", "lldp_ttl"}
+
+// PacketOfKind generates a well-formed header of the given kind.
+func PacketOfKind(r *prng.R, kind string, o FrameOpt) *rec.Rec {
+	switch kind {
+	case "ethernet":
+		return Frame(r, o)
+	case "vlan":
+		return rec.New("vlan").Set("tpid", 0x8100).Set("pcp", r.Bits(3)).Set("dei", r.Bits(1)).Set("vid", r.Bits(12))
+	case "arp":
+		return ARP(r)
+	case "ipv4":
+		return IPv4(r, o)
+	case "ipv6":
+		return IPv6(r, o)
+	case "hbh":
+		return hbh(r, r.U8())
+	case "routing":
+		return routing(r, r.U8())
+	case "fragment":
+		return fragment(r, r.U8())
+	case "ip6opt":
+		return rec.New("ip6opt").Set("type", r.Bits(8)).SetB("data", r.Bytes(r.Pick(0, 1, 4, 6, r.Range(0, 60))))
+	case "icmp":
+		return ICMP(r, o)
+	case "udp":
+		return UDP(r, o)
+	case "tcp":
+		return TCP(r, o)
+	case "igmp12":
+		return IGMP12(r)
+	case "igmp3_query":
+		return IGMP3Query(r)
+	case "igmp3_record":
+		return IGMP3Record(r)
+	case "igmp3_report":
+		return IGMP3Report(r)
+	case "dhcp":
+		return DHCP(r)
+	case "lldp":
+		return LLDP(r)
+	case "lldp_chassis":
+		return LLDP(r).Sub("chassis")
+	case "lldp_port":
+		return LLDP(r).Sub("port")
+	case "lldp_ttl":
+		return LLDP(r).Sub("ttl")
+	}
+	return nil
+}
